@@ -122,6 +122,24 @@ static void emit(const char *t, const char *key, const char *detail)
     fflush(stdout);
 }
 
+#define MAX_VKEYS 64
+static struct { char *key; uint64_t n; } vkeys[MAX_VKEYS];
+static int nb_vkeys;
+
+static uint64_t vkey_count(const char *key)
+{
+    for (int i = 0; i < nb_vkeys; i++)
+        if (!strcmp(vkeys[i].key, key))
+            return ++vkeys[i].n;
+    if (nb_vkeys < MAX_VKEYS) {
+        vkeys[nb_vkeys].key = strdup(key);
+        vkeys[nb_vkeys].n = 1;
+        nb_vkeys++;
+        return 1;
+    }
+    return 1000;
+}
+
 void vh_violation_noabort(const char *key, const char *fmt, ...)
 {
     char buf[2048];
@@ -130,7 +148,8 @@ void vh_violation_noabort(const char *key, const char *fmt, ...)
     vsnprintf(buf, sizeof(buf), fmt, ap);
     va_end(ap);
     nb_viol++;
-    if (nb_viol <= 40)
+    /* the first occurrences of each key are written out, all are counted */
+    if (vkey_count(key) <= 3)
         emit("viol", key, buf);
     if (vh_opts.verbose)
         fprintf(stderr, "VIOL %s: %s\n  trace: %s\n", key, buf, vh_trace);
@@ -255,6 +274,12 @@ static void print_stats(const struct vh_lab *lab)
         vh_json_str(stdout, counters[i].name);
         printf(":%" PRIu64, counters[i].v);
     }
+    printf("},\"viol_counts\":{");
+    for (int i = 0; i < nb_vkeys; i++) {
+        if (i) printf(",");
+        vh_json_str(stdout, vkeys[i].key);
+        printf(":%" PRIu64, vkeys[i].n);
+    }
     printf("},\"samples\":[");
     for (int i = 0; i < nb_samples; i++) {
         if (i) printf(",");
@@ -324,7 +349,7 @@ int vh_main(int argc, char **argv, const struct vh_lab *lab)
         if (!setjmp(vh_case_jmp))
             lab->run_case(&rng);
         cases_run++;
-        if (nb_viol > 200) break;
+        if (nb_vkeys >= MAX_VKEYS) break;
     }
     if (lab->fini) lab->fini();
     print_stats(lab);
